@@ -153,8 +153,10 @@ def random_start(rng, mmin=4, mmax=12):
 def random_history(rng, maxlen=8, with_rejects=False, continuation=True):
     xs, ys = random_start(rng)
     sim = XSim(xs)
+    ref_x = list(xs)
     ops = []
     for _ in range(rng.randint(0, maxlen)):
+        ref_x = list(sim.x)              # unreshaped so far: the reference abscissae are the working ones
         if with_rejects and rng.random() < 0.3:
             ops.append(random_reject_op(rng, sim))
             continue
@@ -169,6 +171,7 @@ def random_history(rng, maxlen=8, with_rejects=False, continuation=True):
         sim.apply(op)
         if len(sim.x) < 3:
             break
+    ref_x = list(sim.x)
     if continuation and len(sim.x) <= 24 and len(sim.x) >= 2:
         n = rng.randint(2, 4)
         ops.append({"k": "recreate", "strategy": rng.choice(["PiecewiseConstant", "LinearFixed", "ExpFixed", "LinearAdaptive", "ExpAdaptive"]),
@@ -177,6 +180,25 @@ def random_history(rng, maxlen=8, with_rejects=False, continuation=True):
         ops.append({"k": "integral_match", "trule": rng.choice(["trapezoid", "rectangle"]), "rrule": "rectangle", "alpha": R(1)})
         if with_rejects:
             sim2 = XSim(sim.x)
+            if rng.random() < 0.5 and len(sim.x) >= 2:
+                # after the series was reshaped: cut with bounds that are no samples (working and reference then span
+                # different ranges), then a request with one ratio bound and one absolute bound that is inverted for
+                # exactly one of the two series
+                ref = XSim(ref_x)
+                fine = XSim([sim.x[0] + (sim.x[i // n + 1] - sim.x[i // n]) * Fraction(i % n, n) + (sim.x[i // n] - sim.x[0]) for i in range((len(sim.x) - 1) * n)] + [sim.x[-1]])
+                span = fine.x[-1] - fine.x[0]
+                cut = {"k": "truncate_value", "left": R(fine.x[0] + span * Fraction(3, 32)), "right": R(fine.x[0] + span * Fraction(23, 32)), "lr": False, "rr": False}
+                fine.apply(cut)
+                ref.apply(cut)
+                if len(fine.x) >= 3 and len(ref.x) >= 2 and (fine.x[0], fine.x[-1]) != (ref.x[0], ref.x[-1]):
+                    l = Fraction(rng.choice([3, 5, 7]), 8)
+                    lw = l * (fine.x[-1] - fine.x[0]) + fine.x[0]
+                    lr_ = l * (ref.x[-1] - ref.x[0]) + ref.x[0]
+                    if lw != lr_:
+                        right = (lw + lr_) / 2          # inverted for the series with the larger converted left bound only
+                        ops.append(cut)
+                        ops.append({"k": "truncate_value", "left": R(l), "right": R(right), "lr": True, "rr": False})
+                        return {"fn": "whist", "start": start_record(rng, xs, ys), "ops": ops}
             ops.append(random_reject_op(rng, sim2))
     return {"fn": "whist", "start": start_record(rng, xs, ys), "ops": ops}
 
